@@ -74,7 +74,14 @@ type Contract struct {
 	Asserts     []AssertSpec
 	Inputs      []AssertSpec // assumptions about data read from external input (listed as entry preconditions)
 	Sends       []AssertSpec
+	Sorts       map[string]*SortSpec // by call label, e.g. "Sort#1"
 	Used        bool
+}
+
+// SortSpec describes what a call of sort.Sort may change and which facts every Swap preserves.
+type SortSpec struct {
+	Modifies []ModItem
+	Invs     []SpecClause
 }
 
 type DefParam struct{ Name, Type string }
@@ -93,7 +100,7 @@ type ContractSet struct {
 	Files   []string
 }
 
-var kwRe = regexp.MustCompile(`^(define|func|trusted|inline|ghost|requires|ensures|modifies|loop|invariant|decreases|assert|assume-input|sends)\b`)
+var kwRe = regexp.MustCompile(`^(define|func|trusted|inline|ghost|requires|ensures|modifies|loop|invariant|decreases|assert|assume-input|sends|sort)\b`)
 
 func splitTop(s string, sep byte) []string {
 	var out []string
@@ -305,6 +312,40 @@ func (cs *ContractSet) loadFile(file string) error {
 					return fail(err)
 				}
 				curLoop.Decreases = e
+			case "sort":
+				// sort LABEL modifies ITEMS | sort LABEL invariant name: EXPR
+				fs := strings.SplitN(st.text, " ", 3)
+				if len(fs) != 3 {
+					return fail(fmt.Errorf("sort LABEL modifies|invariant ..."))
+				}
+				if cur.Sorts == nil {
+					cur.Sorts = map[string]*SortSpec{}
+				}
+				sp := cur.Sorts[fs[0]]
+				if sp == nil {
+					sp = &SortSpec{}
+					cur.Sorts[fs[0]] = sp
+				}
+				switch fs[1] {
+				case "modifies":
+					items, err := parseModItems(fs[2])
+					if err != nil {
+						return fail(err)
+					}
+					sp.Modifies = append(sp.Modifies, items...)
+				case "invariant":
+					name, body := parseNamed(strings.TrimSpace(fs[2]))
+					e, err := ParseSpec(body)
+					if err != nil {
+						return fail(err)
+					}
+					if name == "" {
+						name = autoName("s", len(sp.Invs)+1)
+					}
+					sp.Invs = append(sp.Invs, SpecClause{Name: name, Expr: e, Src: body})
+				default:
+					return fail(fmt.Errorf("sort LABEL modifies|invariant ..."))
+				}
 			case "assert", "sends", "assume-input":
 				// LABEL name: expr ; label is first token (may contain '#')
 				fs := strings.SplitN(st.text, " ", 2)
